@@ -96,6 +96,21 @@ class JobCtx(FSModel, Ctx):
         Ctx.__init__(self, contract, case)
         self.faults = case.get("faults", getattr(contract, "faults", True))
         self.rg = False
+        self.externals[open] = self.x_open
+
+    # ---- builtin open(): the persistent files of a job (state point, document) are only ever replaced through the collection classes
+    # (temp file + os.replace when write_concern is set); opening one of them for writing truncates it in place, which a reader or a
+    # crash can observe -- forbidden for every function under a job.py / project.py contract
+    def x_open(self, interp, loc, mode="r", *a, **k):
+        from pyvc.core import PathEnd
+        if isinstance(loc, LIn) and isinstance(mode, str) and any(c in mode for c in "wax+"):
+            nm = loc.name
+            ok = z3.And(nm != Name.DOC, nm != Name.SP)
+            if not interp.ex.decide(ok, "open-for-writing:a data file"):
+                interp.ex.oblige(self.contract.oname("atomic:a_persistent_job_file_is_never_opened_for_writing_in_place"), False, note=f"open({loc}, {mode!r})")
+                raise PathEnd()
+            raise Unsupported(f"open({loc}, {mode!r}): data files of a job are outside the file-system model")
+        raise Unsupported(f"open(..., {mode!r})")
 
     # ---- calc_id (contract; verified separately for C01)
     def stub_calc_id(self, interp, b):
